@@ -1,5 +1,6 @@
 """C20 — bundled nuclear data are returned verbatim; attenuation follows the 1/v law."""
 
+import hashlib
 import math
 
 import mpmath as mp
@@ -189,16 +190,24 @@ def verify(api: str, name: str) -> list:
 # ------------------------------------------------------------------ facets 1-3: complete tables
 
 
+def _shuffled(names, first_row, seed):
+    """All rows, in an order that is a pure function of VERIF_SEED (not file order, so that state
+    surviving between lookups, e.g. a file position, cannot stay hidden behind a monotone scan)."""
+    cases = [{"name": n, "row": i + first_row} for i, n in enumerate(names)]
+    cases.sort(key=lambda c: hashlib.sha1(f"{seed}:{c['name']}".encode()).hexdigest())
+    return cases
+
+
 def enum_scattering(tier, seed):
-    return [{"name": n, "row": i + 1} for i, n in enumerate(csvtab.tables().scattering_order)]
+    return _shuffled(csvtab.tables().scattering_order, 1, seed)
 
 
 def enum_weights(tier, seed):
-    return [{"name": n, "row": i + 3} for i, n in enumerate(csvtab.tables().weights_order)]
+    return _shuffled(csvtab.tables().weights_order, 3, seed)
 
 
 def enum_masses(tier, seed):
-    return [{"name": n, "row": i + 3} for i, n in enumerate(csvtab.tables().masses_order)]
+    return _shuffled(csvtab.tables().masses_order, 3, seed)
 
 
 def check_scattering_row(case):
@@ -573,7 +582,7 @@ def check_attenuation(case):
 
 FACETS = [
     Facet("scattering_table", check_scattering_row, enumerate=enum_scattering,
-          exhaustive_in=("quick", "thorough"), quick=(2, 0), thorough=(4, 0), min_nontrivial=0.99,
+          exhaustive_in=("quick", "thorough"), quick=(1, 0), thorough=(4, 0), min_nontrivial=0.99,
           doc="every row of scattering_parameters.csv: 8 quantities, value/variance/unit/None"),
     Facet("weights_table", check_weights_row, enumerate=enum_weights,
           exhaustive_in=("quick", "thorough"), quick=(1, 0), thorough=(2, 0), min_nontrivial=0.99,
@@ -582,13 +591,13 @@ FACETS = [
           exhaustive_in=("quick", "thorough"), quick=(4, 0), thorough=(8, 0), min_nontrivial=0.99,
           doc="every nuclide of atomic_masses.csv: mass, Z and weight of its element"),
     Facet("near_miss_names", check_near_miss, strategy=lambda tier: near_miss_cases(),
-          quick=(3, 1200), thorough=(16, 6000), min_nontrivial=0.3,
+          quick=(4, 900), thorough=(16, 4000), min_nontrivial=0.15,
           doc="edited names must be rejected unless they are rows themselves (then exact data)"),
     Facet("cache_sequences", check_sequence, strategy=lambda tier: sequence_cases(),
-          quick=(2, 300), thorough=(16, 1500), min_nontrivial=0.5,
+          quick=(2, 300), thorough=(16, 1000), min_nontrivial=0.5,
           doc="repeated lookups in drawn order without clearing the lru_caches"),
     Facet("attenuation", check_attenuation, strategy=lambda tier: attenuation_cases(),
-          quick=(3, 1000), thorough=(16, 8000), min_nontrivial=0.3,
+          quick=(4, 600), thorough=(16, 4000), min_nontrivial=0.3,
           doc="Material.attenuation_coefficient vs n*(sigma_s + sigma_a*lambda/1.7982A) in mpmath"),
 ]
 
